@@ -12,7 +12,7 @@
 //!   mr   <cwd> <entry>                 frontend::resolver::ModuleResolver      -> same format
 //!   mc   <cwd> <entry>                 frontend::module::ModuleCollector       -> `OK id;id` (sorted) | `ERR text`
 //!   lsp  <entry abs path>              in-process tower-lsp didOpen            -> `OK deps=<path;..> self=<n> diags=<msg||msg>`
-//!                                      (deps = files for which the server published diagnostics; self = how often the entry was loaded as a dependency)
+//!                                      (deps = files for which the server published diagnostics, in publication order; self = how often the entry was loaded as a dependency)
 //!   check <cwd> <entry>                collect_modules + TypeChecker::check_with_imports (body of check_file)
 //!                                      -> `PASS @@<modules>` | `FAIL msg||msg @@<modules>` | `ERR text`  (modules as for cli)
 //!   checkcli <cwd> <entry> <ms>        child process running the real cli::commands::check_file with a timeout
@@ -317,10 +317,10 @@ pub fn run(args: &[String]) {
                 }
             }),
             "lsp" => match lsp_open(Path::new(p[1])) {
-                Ok((mut deps, diags, selfdep)) => {
-                    deps.sort();
-                    deps.dedup();
-                    let deps: Vec<String> = deps.iter().map(|d| rel(&root, d)).collect();
+                Ok((deps, diags, selfdep)) => {
+                    // keep the order in which the server published (= processed) the dependencies
+                    let mut seen_dep = std::collections::HashSet::new();
+                    let deps: Vec<String> = deps.iter().filter(|d| seen_dep.insert((*d).clone())).map(|d| rel(&root, d)).collect();
                     format!("OK deps={} self={} diags={}", deps.join(";"), selfdep, diags.iter().map(|d| clean(d)).collect::<Vec<_>>().join("||"))
                 }
                 Err(e) => format!("ERR {}", clean(&e)),
